@@ -78,6 +78,8 @@ struct WorkerStats {
     skipped_ref_panic: u64,
     rerun_checked: u64,
     rerun_log_mismatch: u64,
+    #[serde(default)]
+    hangs_in_runs_with_nested_calls: u64,
     step_count_differs_from_solo: u64,
     policies: BTreeMap<String, u64>,
     ops: BTreeMap<String, u64>,
@@ -109,6 +111,7 @@ impl WorkerStats {
         self.ref_panics += o.ref_panics;
         self.skipped_ref_panic += o.skipped_ref_panic;
         self.rerun_checked += o.rerun_checked;
+        self.hangs_in_runs_with_nested_calls += o.hangs_in_runs_with_nested_calls;
         self.rerun_log_mismatch += o.rerun_log_mismatch;
         self.step_count_differs_from_solo += o.step_count_differs_from_solo;
         for (k, v) in o.policies {
@@ -205,6 +208,13 @@ fn cmd_worker(args: &[String]) -> i32 {
         let seed = mix(base, i);
         let sc = gen_scenario(seed, &fixtures);
         let out = run_scenario(&sc);
+        if out.hung && sc.threads.iter().flatten().any(|c| c.nest.is_some()) {
+            // a run with a call nested inside an inspector callback: a library that holds a
+            // non-re-entrant lock across the callback blocks itself there. Whether re-entrancy is
+            // owed is not for C17 to say: no verdict (the process is beyond repair all the same).
+            st.hangs_in_runs_with_nested_calls += 1;
+            break;
+        }
         if out.hung {
             // Nobody passes a scheduling point any more although every waiting thread has been
             // offered the baton (take-overs): the calls themselves wait for something that will
@@ -364,7 +374,7 @@ fn cmd_exec() -> i32 {
             Ok(v) => violations = v,
             Err(_) => return 2,
         }
-    } else {
+    } else if !req.scenario.threads.iter().flatten().any(|c| c.nest.is_some()) {
         violations.push(Violation17 { invariant: "V17.9-hang".into(), tid: 0, call: 0, message: hang_message() });
     }
     let ans = ExecAnswer {
@@ -1640,7 +1650,7 @@ fn cmd_run(args: &[String]) -> i32 {
             "threads_per_run": st.threads_hist,
             "references": {"computed_in_fresh_processes": st.refs_computed, "single_calls_that_panic_on_their_own(skipped)": st.ref_panics, "comparisons_skipped_for_that_reason": st.skipped_ref_panic},
             "determinism": {"seeds_rerun_in_process": st.rerun_checked, "schedule_log_mismatches": st.rerun_log_mismatch, "baton_takeovers(real lock suspected)": st.takeovers},
-            "observations": {"calls_whose_step_count_differs_between_two_executions": st.step_count_differs_from_solo},
+            "observations": {"calls_whose_step_count_differs_between_two_executions": st.step_count_differs_from_solo, "hangs_in_runs_with_a_nested_call(non-re-entrant library: no verdict)": st.hangs_in_runs_with_nested_calls},
             "reported": reported,
             "lane_B2_cli_separate_processes": cli_json,
             "lane_B3_miri": miri_json,
